@@ -315,6 +315,105 @@ theorem list_after_set (repos : List Repo) (docs : List Doc) (hwf : ListWF repos
     · simp [h1]
 
 
+/-! ## searches with a per-repository limit (`ShardRepoMaxMatchCount`) -/
+
+/-- **a per-repository limit never lets a hidden document through**: whatever the limit, the counter state and the
+    query, every result of the limited search is a matching document that is neither in a tombstoned repository nor a
+    file-tombstoned path — in particular the document the loop reaches after skipping the rest of a repository -/
+theorem searchLim_hides (repos : List Repo) (limit : Nat) (w : Doc → Option Nat) (docs : List Doc) (last cnt : Nat) :
+    ∀ d ∈ searchLim repos limit w docs last cnt, hidden repos d = false ∧ d ∈ docs ∧ (w d).isSome = true := by
+  induction docs generalizing last cnt with
+  | nil => simp [searchLim]
+  | cons x rest ih =>
+    intro d hd
+    simp only [searchLim] at hd
+    split at hd
+    · obtain ⟨h1, h2, h3⟩ := ih _ _ d hd
+      exact ⟨h1, by simp [h2], h3⟩
+    · rename_i hlive
+      split at hd
+      · obtain ⟨h1, h2, h3⟩ := ih _ _ d hd
+        exact ⟨h1, by simp [h2], h3⟩
+      · cases hw : w x with
+        | none =>
+          simp only [hw] at hd
+          obtain ⟨h1, h2, h3⟩ := ih _ _ d hd
+          exact ⟨h1, by simp [h2], h3⟩
+        | some k =>
+          simp only [hw, List.mem_cons] at hd
+          rcases hd with rfl | hd
+          · refine ⟨?_, by simp, by simp [hw]⟩
+            have : live repos d = true := by simpa using hlive
+            rw [live_eq_not_hidden] at this; simpa using this
+          · obtain ⟨h1, h2, h3⟩ := ih _ _ d hd
+            exact ⟨h1, by simp [h2], h3⟩
+
+/-- without a limit the loop is the plain search -/
+theorem searchLim_zero (repos : List Repo) (w : Doc → Option Nat) (docs : List Doc) (last cnt : Nat) :
+    searchLim repos 0 w docs last cnt = search repos docs (fun d => (w d).isSome) := by
+  induction docs generalizing last cnt with
+  | nil => simp [searchLim, search]
+  | cons x rest ih =>
+    simp only [searchLim, search, List.filter_cons]
+    cases hl : live repos x
+    · simp [ih, search]
+    · cases hw : w x <;> simp [ih, search]
+
+/-- **the limit only thins out repositories**: every matching visible document is either returned or some other document
+    of its repository is (unless the counter already stood at the limit for that repository when the loop started) -/
+theorem searchLim_keeps_repo (repos : List Repo) (limit : Nat) (w : Doc → Option Nat) (docs : List Doc) (last cnt : Nat)
+    (d : Doc) (hd : d ∈ docs) (hl : live repos d = true) (hm : (w d).isSome = true) :
+    (∃ h ∈ searchLim repos limit w docs last cnt, h.repo = d.repo) ∨ (limit > 0 ∧ cnt ≥ limit ∧ d.repo = last) := by
+  induction docs generalizing last cnt with
+  | nil => simp at hd
+  | cons x rest ih =>
+    simp only [searchLim]
+    rcases List.mem_cons.mp hd with rfl | hd'
+    · simp only [hl, Bool.not_true, Bool.false_eq_true, if_false]
+      split
+      · rename_i h
+        simp only [Bool.and_eq_true, decide_eq_true_eq, beq_iff_eq] at h
+        exact Or.inr ⟨h.1.1, h.1.2, h.2⟩
+      · obtain ⟨k, hk⟩ := Option.isSome_iff_exists.mp hm
+        simp only [hk]
+        exact Or.inl ⟨d, by simp, rfl⟩
+    · split
+      · exact ih _ _ hd'
+      · split
+        · exact ih _ _ hd'
+        · cases hw : w x with
+          | none =>
+            simp only
+            rcases ih x.repo (if last != x.repo then 0 else cnt) hd' with h | ⟨h1, h2, h3⟩
+            · exact Or.inl h
+            · right
+              by_cases hne : last = x.repo
+              · simp [hne] at h2; exact ⟨h1, h2, by rw [h3, hne]⟩
+              · have : (last != x.repo) = true := by simpa using hne
+                simp [this] at h2; omega
+          | some k =>
+            simp only
+            rcases ih x.repo ((if last != x.repo then 0 else cnt) + k) hd' with ⟨h, hh, hr⟩ | ⟨_, _, h3⟩
+            · exact Or.inl ⟨h, List.mem_cons_of_mem _ hh, hr⟩
+            · exact Or.inl ⟨x, by simp, h3.symm⟩
+
+/-- the executable statement for limited searches holds of the model -/
+theorem C17_checkP_lim (repos : List Repo) (limit : Nat) (w : Doc → Option Nat) (docs : List Doc) :
+    checkSearchLim repos (docs.filter fun d => (w d).isSome) (searchLim repos limit w docs 0 0) = true := by
+  simp only [checkSearchLim, Bool.and_eq_true, List.all_eq_true, List.contains_eq_mem, decide_eq_true_eq,
+    Bool.or_eq_true, Bool.not_eq_true', List.any_eq_true, beq_iff_eq]
+  refine ⟨⟨fun d hd => (searchLim_hides repos limit w docs 0 0 d hd).1, fun d hd => ?_⟩, fun d hd => ?_⟩
+  · have := searchLim_hides repos limit w docs 0 0 d hd
+    exact List.mem_filter.mpr ⟨this.2.1, this.2.2⟩
+  · rw [List.mem_filter] at hd
+    cases hh : hidden repos d
+    · right
+      have hl : live repos d = true := by rw [live_eq_not_hidden, hh]; rfl
+      rcases searchLim_keeps_repo repos limit w docs 0 0 d hd.1 hl hd.2 with h | ⟨h1, h2, _⟩
+      · exact h
+      · omega
+    · left; rfl
+
 /-! ## non-vacuity -/
 
 def exRepos : List Repo := [⟨1, 10, false, []⟩, ⟨2, 11, false, [7]⟩, ⟨3, 12, false, []⟩]
@@ -326,5 +425,9 @@ example : search (setTombstone exShard 1 true true).1.load exDocs (fun _ => true
 example : list (setTombstone exShard 1 true true).1.load exDocs (.repoPred fun r => r.name == 11 || r.name == 12) = [1, 2] := by decide
 example : list (setTombstone exShard 1 true true).1.load exDocs (.repoPred fun r => r.name == 10) = [] := by decide
 example : (runOps exShard [⟨true, 1, true⟩, ⟨true, 2, false⟩, ⟨false, 1, true⟩, ⟨true, 3, true⟩]).load.map (·.tomb) = [false, false, true] := by decide
+
+/-- a limit of one match per repository: the rest of repository 1 is skipped, the tombstoned repository behind it stays hidden -/
+example : searchLim [⟨1, 10, false, []⟩, ⟨2, 11, true, []⟩, ⟨3, 12, false, []⟩] 1 (fun _ => some 1)
+    [⟨0, 5⟩, ⟨0, 6⟩, ⟨1, 7⟩, ⟨1, 8⟩, ⟨2, 9⟩] 0 0 = [⟨0, 5⟩, ⟨2, 9⟩] := by decide
 
 end ZoektModel.C17
